@@ -53,11 +53,26 @@ def c02_stop(when: int, d: int, v: int, f1: int, p1: int, f2: int, p2: int) -> b
         k = w.kernel
         k.behaviour = BEHS[S.get('beh', 0)]
         var = S.get('var', 'default')
-        wa = w.mk_watcher('a', **scen.variant(var, numprocesses=S.get('n0', 2), graceful_timeout=0.2))
         wb = w.mk_watcher('b', numprocesses=1, graceful_timeout=0.2)
-        w.boot([wa, wb], check_delay=0.4 if var == 'max_age' else 1.0)
+        if var == 'on_demand':
+            # started by the first connection on a managed socket (a background start, paced 0.3 s apart)
+            from circus.sockets import CircusSocket
+            wa = w.mk_watcher('a', numprocesses=2, graceful_timeout=0.2, warmup_delay=0.3, on_demand=True, use_sockets=True)
+            w.boot([wa, wb], check_delay=1.0, sockets=[CircusSocket(name='web', host='127.0.0.1', port=0)])
+            w.select_result = [w.arbiter.sockets['web'].fileno()]
+            w.run_for(1.05)                                   # the periodic check sees the connection and starts the watcher
+            w.select_result = []                              # ... which is then served: no further socket event
+            if S.get('od_phase') == 'active':
+                w.run_for(1.0)
+                k.external_kill(k.alive_pids('a')[0])        # one worker dies: the watcher stays up with the other one
+                w.run_for(1.0)
+            else:
+                w.run_for(0.1)                                # the request arrives while the second worker is still to be spawned
+        else:
+            wa = w.mk_watcher('a', **scen.variant(var, numprocesses=S.get('n0', 2), graceful_timeout=0.2))
+            w.boot([wa, wb], check_delay=0.1 if var == 'max_age' else 1.0)
         if var == 'max_age':
-            w.run_for(0.9)                  # the workers are about to expire: the next periodic checks will replace them
+            w.run_for(0.93)                 # the workers are about to expire: the next periodic checks will replace them
         started = set(p['pid'] for p in k.spawn_log if p['tag'] == 'a')
         sc = Sched(w)
         try:
@@ -148,7 +163,13 @@ def c02_stop(when: int, d: int, v: int, f1: int, p1: int, f2: int, p2: int) -> b
                 rt.note('stopped watcher now %r with table %r', wa.status(), sorted(wa.processes))
                 ok = False
             # negative control: start does start
-            st = w.call('start', name='a', waiting=True, match='simple')
+            if var == 'on_demand':
+                # an on_demand watcher is started by a connection, not by the request: the next periodic check after one starts it
+                w.select_result = [w.arbiter.sockets['web'].fileno()]
+                w.run_for(1.5)
+                st = w.call('status', name='a')
+            else:
+                st = w.call('start', name='a', waiting=True, match='simple')
             if st.status == 'ok' and wa.numprocesses > 0 and not k.alive_pids('a'):
                 rt.note('start after stop started nothing')
                 ok = False
@@ -220,6 +241,62 @@ CANARIES = {
 }
 
 
+def c02_socket_event(ph: int, nb: int, ticks: int) -> bool:
+    """
+    Stopped stays stopped, socket events included: a connection on a managed socket starts the on_demand watcher that waits for it,
+    never a watcher the operator has stopped (on_demand or not) -- and only the former counts as 'a socket event for an on-demand watcher'.
+
+    ph: 0 = b stopped before a's first connection; 1 = b stopped, then a's only worker dies and a second connection arrives;
+        2 = BOTH stopped by request (a is on_demand: the connection may start a again, never b)
+    pre: 0 <= ph <= 2 and 1 <= nb <= 2 and 1 <= ticks <= 3
+    post: _
+    """
+    ph = rt.pick(ph, 3)
+    nb = rt.pick(nb, 3)
+    ticks = rt.pick(ticks, 4)
+    from circus.sockets import CircusSocket
+    with World() as w:
+        k = w.kernel
+        k.behaviour = BEHS[rt.S.get('beh', 0)]
+        wa = w.mk_watcher('a', numprocesses=1, graceful_timeout=0.2, on_demand=True, use_sockets=True)
+        wb = w.mk_watcher('b', numprocesses=nb, graceful_timeout=0.2)
+        order = [wb, wa] if rt.S.get('b_first') else [wa, wb]
+        try:
+            w.boot(order, check_delay=1.0, sockets=[CircusSocket(name='web', host='127.0.0.1', port=0)])
+            fd = w.arbiter.sockets['web'].fileno()
+            if ph == 1:
+                w.select_result = [fd]
+                w.run_for(1.2)
+                w.select_result = []
+            r = w.call('stop', name='b', waiting=True, match='simple', max_time=20.0)
+            if ph == 2:
+                w.call('stop', name='a', waiting=True, match='simple', max_time=20.0)
+            if r.status != 'ok':
+                return rt.skip()
+            if ph == 1:
+                if not k.alive_pids('a'):
+                    rt.note('the first connection did not start the on_demand watcher (status %r)', wa.status())
+                    return rt.verdict(False)
+                k.external_kill(k.alive_pids('a')[0])
+                w.run_for(1.2)                      # reaped; a waits for its next connection
+            n_b = len([p for p in k.spawn_log if p['tag'] == 'b'])
+            n_a = len([p for p in k.spawn_log if p['tag'] == 'a'])
+            w.select_result = [fd]
+            w.run_for(1.0 * ticks + 0.2)
+            if w.clock.tripped:
+                return rt.skip()
+            ok = True
+            if len([p for p in k.spawn_log if p['tag'] == 'b']) != n_b or wb.status() != 'stopped' or k.alive_pids('b'):
+                rt.note('a connection for the on_demand watcher started the stopped watcher b: status %r, live %r', wb.status(), k.alive_pids('b'))
+                ok = False
+            if len([p for p in k.spawn_log if p['tag'] == 'a']) == n_a or not k.alive_pids('a'):
+                rt.note('the connection did not start the on_demand watcher (status %r)', wa.status())
+                ok = False
+            return rt.verdict(ok)
+        except (scen.Diverged, scen.BlockedLoop):
+            return rt.skip()
+
+
 def plan(tier):
     q = tier == 'quick'
     sh = []
@@ -234,14 +311,22 @@ def plan(tier):
     for req in (REQ_STOP, REQ_RESTART, REQ_QUIT):
         sh.append({'req': req, 'n0': 2, 'beh': 2, 'K': 0, 'whenmax': 1, 'var': 'gt0'})
         sh.append({'req': req, 'n0': 2, 'beh': 2, 'K': 0, 'whenmax': 1, 'var': 'max_age', 'dmax': 8})
+    for beh in (0, 2):
+        for ph in ('starting', 'active'):
+            for req in ((REQ_STOP, REQ_QUIT) if q else (REQ_STOP, REQ_RESTART, REQ_RM, REQ_QUIT)):
+                sh.append({'req': req, 'beh': beh, 'K': 1 if req == REQ_STOP else 0, 'whenmax': 0, 'dmax': 6, 'var': 'on_demand', 'od_phase': ph})
     for kf in (0, 1, 2):
         sh.append({'req': REQ_STOP, 'n0': 2, 'beh': 0, 'K': 0, 'whenmax': 0, 'killfail': kf})
         sh.append({'req': REQ_STOP, 'n0': 2, 'beh': 2, 'K': 0, 'whenmax': 0, 'killfail': kf})
     return [
+        Cond('c02_socket_event', shards=[{'beh': 0}, {'beh': 2}, {'beh': 0, 'b_first': True}], budget=120, twins=1,
+             bounds={'phase': 'S{b stopped before the first connection, b stopped + second connection after the worker died, both stopped}',
+                     'numprocesses of b': 'S{1,2}', 'periodic checks after the connection': 'S{1,2,3}', 'beh': 'S{obey, ignore}',
+                     'order': 'S{a first, b first}'}),
         Cond('c02_stop', shards=sh, budget=150 if q else 1200, twins=3,
              bounds={'req': 'S{stop, restart, rm, quit, rm nostop (negative control)}', 'when': 'S{quiescent, kill request in flight}',
                      'd': 'R[0,dmax] kernel call of an injected SIGKILL death inside the stop sequence', 'v': 'S{0,1}',
                      'f1,f2': 'S: follow-up event from {check, incr, decr, set numprocesses, time, kill, signal, set args/env/working_dir/max_age}', 'p1,p2': 'R[-1,2]',
-                     'beh': 'S{obey, obey 0.15 s, ignore, obey 0.3 s (past timeout), mixed}', 'var': 'S{default, graceful_timeout 0, max_age 1 s}',
+                     'beh': 'S{obey, obey 0.15 s, ignore, obey 0.3 s (past timeout), mixed}', 'var': 'S{default, graceful_timeout 0, max_age 1 s, on_demand (stop during its background start / after one worker died)}',
                      'killfail': 'S: the n-th signal delivery of the stop fails with EPERM, then the stop is requested again', 'n0': 'S{1,2}'}),
     ]
